@@ -457,7 +457,9 @@ pub fn write_stream(docs: &[Val], styles: &[Style], seps: &[u8]) -> String {
     let mut prev_closed = true; // at stream start an implicit document is fine
     for (i, d) in docs.iter().enumerate() {
         let style = &styles[i % styles.len().max(1)];
-        let body = write_doc_body(d, style, !prev_closed, prev_closed);
+        // libyaml only accepts an implicit (marker-less) document at the very
+        // start of the stream
+        let body = write_doc_body(d, style, i > 0, prev_closed);
         out.push_str(&body);
         let sep = seps.get(i).copied().unwrap_or(0) % 5;
         match sep {
